@@ -347,7 +347,7 @@ class C20Check(Check):
         "pick equality is only demanded when the two utility rows are bit-identical or the top-two gap exceeds 1e-9",
         "thread pre-emption is at Python line granularity inside skactiveml; loky is represented by pickle isolation, not by real processes",
     ]
-    tiers = {"quick": {"runs": 800, "wall_cap": 500, "chunk": 8}, "thorough": {"runs": 16000, "wall_cap": 3300, "chunk": 16}}
+    tiers = {"quick": {"runs": 2000, "wall_cap": 600, "chunk": 8}, "thorough": {"runs": 40000, "wall_cap": 3300, "chunk": 16}}
 
     def generate(self, rng: SimRng):
         g = rng.fork("workload")
